@@ -59,20 +59,19 @@ Valid(f, v) ==
 SetVals(f) ==
   CASE f.type = "text"  -> IF f.maxlen > 0 THEN << <<"abc">>, <<"12345">>, <<"">>, <<"x">> >>
                            ELSE IF f.multi THEN << <<"@lines">>, <<"one line">>, <<"">>, <<"@latin">> >>
-                           ELSE << <<"Plain">>, <<"@latin">>, <<"@esc">>, <<"@spaces">> >>
+                           ELSE << <<"Plain">>, <<"@latin">>, <<"@esc">>, <<"@spaces">>, <<"">> >>
     [] f.type = "date"  -> IF f.fmt = "dd.mm.yyyy" THEN << <<"31.12.1999">>, <<"01.02.2003">>, <<"">>, <<"29.02.2024">> >>
                            ELSE << <<"2020-05-06">>, <<"1999-12-31">>, <<"">>, <<"2020-05-06">> >>
     [] f.type = "check" -> << <<"t">>, <<"f">>, <<"t">>, <<"f">> >>
     [] f.type = "radio" -> << <<"female">>, <<"male">>, <<"non-binary">>, <<"male">> >>
     [] f.type = "combo" -> << <<"London">>, <<"San Francisco">>, <<"">>, <<"Sidney">> >>
-    [] f.type = "list"  -> IF f.multi THEN << <<"x", "z">>, <<"z", "y">>, <<>>, <<"x", "y", "z">> >>
+    [] f.type = "list"  -> IF f.multi THEN << <<"x", "z">>, <<"y">>, <<"z", "y">>, <<>>, <<"x", "y", "z">> >>
                            ELSE << <<"x">>, <<"z">>, <<"y">>, <<"x">> >>
-NV == 4
+NV == 5     \* the longest repertoire
 (* initial values additionally cover the unset states *)
 InitVals(f) ==
   CASE f.type = "radio" -> Append(SetVals(f), <<"">>)
     [] f.type = "list" /\ ~f.multi -> Append(SetVals(f), <<>>)
-    [] f.type = "text" /\ ~f.multi /\ f.maxlen = 0 -> Append(SetVals(f), <<"">>)
     [] OTHER -> SetVals(f)
 
 ---------------------------------------------------------------------------
